@@ -22,7 +22,7 @@ ASSUMPTIONS = [
 ]
 COMPONENTS = {"real": ["System / Molecule / Stochastic / MolGen, distributions, RDKit"],
               "stub": ["3-D embedding (zero conformer)", "numpy bit generator (SimRng)"]}
-FAULT_KINDS = ["gen_close", "gen_abandon", "gen_throw", "rng_raise", "rng_interrupt", "embed_fail"]
+FAULT_KINDS = ["gen_close", "gen_abandon", "gen_throw", "rng_raise", "rng_interrupt", "rng_value", "embed_fail"]
 
 
 def plan(tier):
@@ -79,7 +79,7 @@ def _enumerate_crash_points(spec, max_points):
     agg = r0
     for k in range(min(n_calls, max_points)):
         sp = json.loads(json.dumps(base))
-        sp["faults"] = [{"kind": "rng_raise" if k % 2 == 0 else "rng_interrupt", "gen": 0, "after_yields": 0, "offset": k, "respawn": True}]
+        sp["faults"] = [{"kind": ("rng_raise", "rng_interrupt", "rng_value")[k % 3], "gen": 0, "after_yields": 0, "offset": k, "respawn": True}]
         r = execute(sp)
         if r.get("harness_error"):
             return r
